@@ -21,6 +21,9 @@ Decides:
  T  combine table         when two alternatives fail, a final error (ParseFailed / GuardFailed ..) is never replaced by a catchable one
                            (absence), so optional/fallback around a choice cannot mistake an invalid value for a missing item (shared with C10).
  U  usage fallback        a failure is replaced by the usage text on stdout only when the level was given no items at all (shared with C10/C11).
+ K5b loop exits          the tests inside a repetition look only at parse_option's result and State::len(); count() adds one on every
+                           way from a success of parse_option to the next round or the exit (a success that consumed nothing - env, fallback -
+                           counts).
 Does not decide: which error survives for a particular nesting inside alternatives."""
 import re
 from core import *
